@@ -10,6 +10,7 @@ import CfVerif.Proofs.C12Flash
 import CfVerif.Proofs.C12Retry
 import CfVerif.Proofs.C12Abort
 import CfVerif.Proofs.C12Loader
+import CfVerif.Proofs.C12Alias
 namespace CfVerif.C12
 open CfVerif
 
@@ -106,6 +107,10 @@ theorem gen_update_info_tests : Gen.C12.infoIfTests.take 4 = ["answer is None",
     "target_id not in self.targets", "len(answer.data) > 22"] ∧
     Gen.C12.infoIfTests.getLast? = some "self.protocol_version == 16 and target_id == TargetTypes.STM32" := ⟨rfl, rfl⟩
 
+/-- packet objects are never reused after they were handed to the link: `upload_buffer` creates a new `CRTPPacket`
+after every send inside its loop, `write_flash` builds a new one for every attempt -/
+theorem gen_fresh_packets : Gen.C12.uploadFreshPacket = true ∧ Gen.C12.writeFreshPacket = true := ⟨rfl, rfl⟩
+
 /-! ## The property -/
 
 /-- **Refused if too big.**  An image that does not fit between the EFFECTIVE start page (the override when one is
@@ -133,6 +138,20 @@ theorem upload_covers_once (P : Peer σ) (L : Link σ) (tid page address : Nat) 
   refine ⟨chunks, hrun, hfl, hinit, hlast, ?_, ?_⟩
   · exact loadPkts_hdr_len tid page chunks hlen address
   · rw [byteWrites_loadPkts tid page ht hp chunks address (by rw [hfl]; exact hfit), hfl]
+
+/-- **No aliasing with the link.**  Against a link that keeps the packet OBJECT it is handed and reads its data only
+later (one-slot out-queue of the radio driver; `ObjLink`), for every buffer, every arguments, whatever already waits
+in the slot: `upload_buffer` puts exactly the same data on the air, in the same order, as the value-level model
+transmits against any peer - the model all other theorems are about - and returns the same result.  So
+`upload_covers_once` and `flash_exact` do not depend on when the link serialises. -/
+theorem upload_no_aliasing (P : Peer σ) (L : Link σ) (o : ObjLink) (tid : Int) (page address : Nat)
+    (buff : List UInt8) (hs : ∀ id, o.slot = some id → id < o.heap.length) :
+    ∃ new : List (List UInt8),
+      (uploadBuffer P L tid page address buff).1.sent = L.sent ++ new.map (fun d => ⟨0xFF, d⟩) ∧
+      (uploadBufferObj o tid page address buff).1.flush.air = o.flush.air ++ new ∧
+      (uploadBuffer P L tid page address buff).2 = (uploadBufferObj o tid page address buff).2 := by
+  obtain ⟨new, h1, h2, h3⟩ := uploadBufferObj_eq P L o tid page address buff hs
+  exact ⟨new, by rw [h1, bootHdr_eq], h2, h3⟩
 
 /-- **Flash exact.**  Environment: the Spec target behind a link with ANY outcome script whose positive replies are
 genuine, ANY stale content in the receive queue, no reply still in flight.  Geometry: positive page size and buffer
@@ -353,6 +372,10 @@ example : (internalFlash (targetPeer 255)
 example : (writeFlash (targetPeer 255)
       { exLink with st := { tgt := exTarget, script := List.replicate Gen.C12.retryInit .cmdLost ++ [.okNow 255], lateQ := [] } }
       255 0 2 3).2 = .ok (false, -1) := by decide
+/-- 60 bytes through a link whose slot already holds an older packet object: three chunks, each serialised late -/
+example : ((uploadBufferObj ⟨[[9, 9]], some 0, []⟩ 255 1 0 ((List.range 60).map UInt8.ofNat)).1.flush.air.map List.length) =
+    [2, 31, 31, 16] := by decide
+
 example : ScriptClean 255 exScript := by
   intro o ho p hp
   simp only [exScript, List.mem_cons, List.not_mem_nil, or_false] at ho
